@@ -67,3 +67,20 @@ Theorem C33_affinity : forall sortf (info : node_info) (base maxshare : Z) (orig
   wr_numanode new = EmptyString /\ forall k, lookup_opt (wr_cpumap new) k = lookup_opt (wr_cpumap origin) k.
 Proof. exact realloc_keeps_cores. Qed.
 Print Assumptions C33_affinity.
+
+(* the two hypotheses of C33_affinity on the available map hold on a node whose
+   cores have whole-core shares when the origin is recorded on whole cores that
+   it alone occupies (capacity = usage = origin = shareBase on those cores) *)
+Theorem C33_available_after_put_back : forall (info : node_info) (origin : wres) (base : Z),
+  NoDup (keys (nr_cpumap (ni_cap info))) ->
+  NoDup (keys (nr_cpumap (ni_usage info))) ->
+  NoDup (keys (wr_cpumap origin)) ->
+  (forall c, In c (keys (nr_cpumap (ni_usage info))) -> In c (keys (nr_cpumap (ni_cap info)))) ->
+  (forall c, In c (keys (wr_cpumap origin)) -> In c (keys (nr_cpumap (ni_usage info)))) ->
+  (forall c, In c (keys (wr_cpumap origin)) ->
+     Types.lookup 0%Z (nr_cpumap (ni_cap info)) c = base /\ Types.lookup 0%Z (nr_cpumap (ni_usage info)) c = base
+     /\ Types.lookup 0%Z (wr_cpumap origin) c = base) ->
+  let av := nr_cpumap (get_available_nofloat (put_back info origin)) in
+  NoDup (keys av) /\ forall c, In c (keys (wr_cpumap origin)) -> lookup_opt av c = Some base.
+Proof. exact avail_after_put_back. Qed.
+Print Assumptions C33_available_after_put_back.
